@@ -228,6 +228,10 @@ def run_fast_len(spec, stt):
     check(bits_equal(y.data, z.data[:m]), "fast_len: retained samples are not the first {} input samples", m)
     same_meta(y, z, "fast_len: ")
     assert_start(y, None if z.start_time is None else O.T(z.start_time), k=1, what="fast_len: ")
+    if z.start_time is not None:
+        # "untouched": nothing is dropped at the front, so the start time is the very same instant (no Time arithmetic to round)
+        check(O.T(y.start_time) == O.T(z.start_time) and y.start_time.scale == z.start_time.scale, "fast_len moved the start time by {:.3g} s",
+              float(O.T(y.start_time) - O.T(z.start_time)))
     if z.start_time is not None and m > 0:
         L = O.T(y.stop_time) - O.T(y.start_time)
         check(abs(L - m / rate_hz(z)) <= O.time_tol(2, m / rate_hz(z)), "fast_len: stop_time - start_time = {} s, expected {} s",
